@@ -1,6 +1,8 @@
 import TxdbusModel.Proofs.Proto.FdsSender
-import TxdbusModel.Properties.C04
+import TxdbusModel.Proofs.Proto.FdsHandoff
 import TxdbusModel.Gen.FdsRules
+import TxdbusModel.Proofs.Proto.FdsMsg
+import TxdbusModel.Proofs.Msg.Tables
 /-!
 # C20 - file descriptors stay attached to the message that carried them
 
@@ -132,7 +134,7 @@ theorem attribution_after_handshake (A : Auth α) (info : Bytes → MsgInfo) (ms
     rw [flatten_readsOf, bytesOf_append]; simpa [bytesOf] using hH
   have hne : readsOf (evsA ++ [.read d1]) ≠ [] := by
     rw [readsOf_append]; simp [readsOf]
-  have hho := handoff A s hs last [] (readsOf (evsA ++ [.read d1])) a1 a' hr ha hbuf hcl hnext hlines hrun hlast
+  have hho := handoff_c20 A s hs last [] (readsOf (evsA ++ [.read d1])) a1 a' hr ha hbuf hcl hnext hlines hrun hlast
     hne hreads
   have hq := recvRun_quiet A info s [] (evsA ++ [.read d1]) (by rw [hho.2.1, frames_nil])
   -- the binary part, the descriptors of the handshake phase already queued
@@ -272,20 +274,20 @@ example : Consistent [⟨tinyMsg16, [5], [0]⟩] [.fd 5, .read tinyMsg16] ∧
 
 /-- `attribution_after_handshake`: handshake `BEGIN\r\n`, the descriptor arrives before the single read
 that holds the handshake line and the message -/
-example : bytesOf [Ev.fd 5] ++ (beginLine ++ [13, 10]) = Spec.unlines ([] ++ [beginLine]) ∧
-    ConsistentAfter (Spec.unlines ([] ++ [beginLine])).length [⟨tinyMsg16, [5], [0]⟩]
-      ([Ev.fd 5] ++ Ev.read ((beginLine ++ [13, 10]) ++ tinyMsg16) :: []) := by
+example : bytesOf [Ev.fd 5] ++ (beginLineC20 ++ [13, 10]) = Spec.unlines ([] ++ [beginLineC20]) ∧
+    ConsistentAfter (Spec.unlines ([] ++ [beginLineC20])).length [⟨tinyMsg16, [5], [0]⟩]
+      ([Ev.fd 5] ++ Ev.read ((beginLineC20 ++ [13, 10]) ++ tinyMsg16) :: []) := by
   refine ⟨by decide, by decide, by decide, ?_⟩
   intro p hp k hk hle
   have hk' : k = 0 ∨ k = 1 := by simp at hk; omega
   rcases hk' with rfl | rfl
   · simp [fdsUpTo]
   · rcases p with _ | ⟨e1, _ | ⟨e2, _ | ⟨e3, p⟩⟩⟩
-    · simp [bytesOf, bytesUpTo, tinyMsg16, Spec.unlines, beginLine] at hle
+    · simp [bytesOf, bytesUpTo, tinyMsg16, Spec.unlines, beginLineC20] at hle
     · obtain ⟨t, ht⟩ := hp
       simp at ht
       obtain ⟨rfl, _⟩ := ht
-      simp [bytesOf, bytesUpTo, tinyMsg16, Spec.unlines, beginLine] at hle
+      simp [bytesOf, bytesUpTo, tinyMsg16, Spec.unlines, beginLineC20] at hle
     · obtain ⟨t, ht⟩ := hp
       simp at ht
       obtain ⟨rfl, rfl, _⟩ := ht
@@ -300,6 +302,370 @@ example : Spec.WellFormed tinyMsg16 ∧
   simp at hj
   subst hj
   decide
+
+/-! ## C20 composed with C03 (and C04, C01): extension 2026-09-30
+
+Model: Proto/FdsMsg.lean (`infoOfParse`, `parsedDelivery`, `oobAfter`, `sendConstructed`, `bvOfFields`);
+lemmas: Proofs/Proto/FdsMsg.lean (`SentFd`, `SentFdOK`, `ParsedFrom`, `info_of_sent`, `parsedAs_of_sent`, ...). -/
+
+section Composed
+open Txdbus.Code
+open Txdbus.Msg (Tables BodyCodec Call construct parseMessage wireCodec)
+
+/-- **C20 ∘ C03 ∘ C01, item 1: `info` instantiated.**  `infoOfParse` (Proto/FdsMsg.lean) is the abstract parser of
+`attribution` read off C03's `parseMessage` model: `declared` = the `unix_fds` attribute that header field 9 sets,
+`indices` = the values at the `h` positions of the body (the body bytes and the SIGNATURE attribute C03's
+`parseMessage` finds, decoded in the message's byte order).  For EVERY method call the C03 model constructs with
+`oobFDs=[]`, a non-empty signature `renderAll ts` and a body in C01's domain (the premises of C03
+`parse_marshal_c01`) whose descriptor arguments are, in wire order, the `k` numbers `ds`
+(`Code.RepFields (ds.map fdVal) vs true ts items 0 k`):
+
+* `infoOfParse (raw m) = { declared := k (absent iff k = 0), indices := [0, …, k-1] }`;
+* that is exactly what the SENDER model of Proto/Fds.lean (`callRemote` on the body's `BV` abstraction
+  `bvOfFields ds vs ts`, theorem `sender_layout`) wrote: the same header, the same indices;
+* and the out-of-band list of that sender model is `ds`.
+
+(Byte order: C03's constructors always serialise little-endian - `DBusMessage.endian = ord('l')` - so there is no
+big-endian constructed message to state this for; `infoOfParse` itself follows the first byte of the message.
+A caller-supplied non-empty `oobFDs` list is outside C03's `parse_marshal_c01` and therefore outside this theorem;
+the layout for it is `sender_layout_general`.) -/
+theorem info_of_constructed (na : Char → Bool) (maxLen : Nat) (st st' : Msg.St)
+    (c : Call PyVal) (m : Msg.Msg PyVal) (hs : 1 ≤ st.nextSerial)
+    (ts : List Ty) (pv : PyVal) (items : List PyVal) (vs : List Val) (ds : List Nat) (bs : Bytes) (fuel : Nat)
+    (hsig : c.signature = some (renderAll ts)) (hne : renderAll ts ≠ []) (hbody : c.body = some pv)
+    (hoob : c.oob = some [])
+    (hts : allWF ts = true) (hitems : Code.topItems pv = .ok items)
+    (hrep : Code.RepFields (ds.map fdVal) vs true ts items 0 ds.length)
+    (henc : Spec.encodeAll Code.genAlign (Txdbus.endianOf true) ts vs 0 = some bs) (hfuel : depthAll vs ≤ fuel)
+    (h : construct Gen.Message.tables (wireCodec fuel) na maxLen st c = (st', .ok m)) :
+    infoOfParse Gen.Message.tables m.raw = ⟨if ds.isEmpty then none else some ds.length, List.range ds.length⟩ ∧
+    infoOfParse Gen.Message.tables m.raw =
+      ⟨(callRemote true (bvOfFields ds vs ts)).1.header, (callRemote true (bvOfFields ds vs ts)).1.indices⟩ ∧
+    (callRemote true (bvOfFields ds vs ts)).1.oob = ds := by
+  have h1 := info_of_constructed_gen _ Msg.genTables_ok na maxLen st st' c m hs ts pv items vs ds bs fuel hsig hne hbody
+    hoob hts hitems hrep henc hfuel h
+  have hl : fdLeavesL (bvOfFields ds vs ts) = ds := by
+    simpa using bvOfFields_of_rep ds vs true ts items 0 ds.length hrep
+  refine ⟨h1, ?_, ?_⟩
+  · rw [h1]; simp [callRemote, marshalMsg, marshalBVs_spec, hl, List.range_eq_range']
+  · simp [callRemote, marshalMsg, marshalBVs_spec, hl]
+
+/-- **C20 end to end (C20 ∘ C04 ∘ C03 ∘ C01), item 2.**  `xs` are sent messages, each made by a constructor call of
+C03's model under the premises of C03's parse theorems (`SentFdOK`: a method call with `oobFDs=[]` whose body
+carries the descriptors `x.ds` in its `h` arguments - any signature, the same number several times, none at all -,
+or any constructor without descriptors, with or without a body), in the sender model's vocabulary
+(`SentFd.toMsg x` = bytes `x.msg.raw`, descriptors and indices as `callRemote` lays them out).  The environment
+delivers bytes and descriptors under ANY interleaving the environment model allows (`Consistent`: bytes in order,
+cut into reads anywhere; descriptors in sending order, those of a message no later than the read with its last
+byte, possibly much earlier).  The receiver is the composition of C04's framing model, C03's `parseMessage`
+(`infoOfParse`) and the `_receivedFDs` discipline of `rawDBusMessageReceived` (`deliver`: index into the whole
+queue, then `queue[unix_fds:]`), fresh in binary mode.  Then:
+
+* `ParsedFrom`: the deliveries are the messages in order, each once; for every delivery the queue was
+  `x.ds ++ early arrivals of later messages`, exactly `|x.ds|` entries were removed, `args = x.ds.map some`
+  (every `h` argument resolved to the descriptor attached at that position to THIS message - none misattributed),
+  and C03's `parseMessage` with C01's code model as body codec, run on that very queue (the code's call
+  `parseMessage(raw, self._receivedFDs)`), returns the message that was sent: class, serial, flags, header
+  attributes, and the body `Code.plainList x.items` with the sender's descriptors at the `h` positions;
+* (the same in one equation) `(raw, args)` of the deliveries = `(x.msg.raw, x.ds.map some)` of the first messages;
+* every complete message was delivered; the final queue holds exactly the descriptors of undelivered messages;
+* when all bytes have arrived: every message was delivered, nothing is buffered, NO descriptor is left queued.
+
+Proof: `attribution` instantiated with `infoOfParse`; `MsgOK` from `info_of_sent` (item 1) through
+`msgOK_of_callRemote`; `Spec.WellFormed` from C03 `marshal_wellformed` + C04 `wellFormed_of_layout`
+(`wellFormed_of_sentFd`); the parse on the real queue from C03 `parse_marshal` + C01 `unmarshal_eq_spec` with
+`rep_agree` (the codec only looks at the queue entries the message's indices name). -/
+theorem descriptors_end_to_end (na : Char → Bool) (maxLen : Nat) (hmax : maxLen ≤ Msg.Spec.maxMessage) (fuel : Nat)
+    (A : Auth α) (xs : List SentFd) (evs : List Ev) (s : St α)
+    (hxs : ∀ x ∈ xs, SentFdOK Gen.Message.tables na maxLen fuel x)
+    (hc : Consistent (xs.map SentFd.toMsg) evs)
+    (hs : s.authenticated = true) (hbuf : s.buffer = []) (hnext : s.nextMsgLen = 0) :
+    ParsedFrom Gen.Message.tables fuel xs (recvRun A (infoOfParse Gen.Message.tables) ⟨s, []⟩ evs).2 ∧
+    (recvRun A (infoOfParse Gen.Message.tables) ⟨s, []⟩ evs).2.map (fun d => (d.raw, d.args)) =
+      (xs.take (recvRun A (infoOfParse Gen.Message.tables) ⟨s, []⟩ evs).2.length).map
+        (fun x => (x.msg.raw, x.ds.map some)) ∧
+    bytesOf evs =
+      ((xs.take (recvRun A (infoOfParse Gen.Message.tables) ⟨s, []⟩ evs).2.length).map (·.msg.raw)).flatten ++
+        (recvRun A (infoOfParse Gen.Message.tables) ⟨s, []⟩ evs).1.st.buffer ∧
+    ¬ Spec.hasFrame (recvRun A (infoOfParse Gen.Message.tables) ⟨s, []⟩ evs).1.st.buffer ∧
+    fdsOf evs =
+      ((xs.take (recvRun A (infoOfParse Gen.Message.tables) ⟨s, []⟩ evs).2.length).map (·.ds)).flatten ++
+        (recvRun A (infoOfParse Gen.Message.tables) ⟨s, []⟩ evs).1.queue ∧
+    (bytesOf evs = (xs.map (·.msg.raw)).flatten →
+      (recvRun A (infoOfParse Gen.Message.tables) ⟨s, []⟩ evs).2.length = xs.length ∧
+      (recvRun A (infoOfParse Gen.Message.tables) ⟨s, []⟩ evs).1.st.buffer = [] ∧
+      (recvRun A (infoOfParse Gen.Message.tables) ⟨s, []⟩ evs).1.queue = []) := by
+  have hT := Msg.genTables_ok
+  have hwf : ∀ m ∈ xs.map SentFd.toMsg, Spec.WellFormed m.raw := by
+    intro m hm
+    obtain ⟨x, hx, rfl⟩ := List.mem_map.1 hm
+    exact wellFormed_of_sentFd _ hT na maxLen fuel hmax x (hxs x hx)
+  have hok : ∀ m ∈ xs.map SentFd.toMsg, Spec.WellFormed m.raw ∧ MsgOK (infoOfParse Gen.Message.tables) m := by
+    intro m hm
+    refine ⟨hwf m hm, ?_⟩
+    obtain ⟨x, hx, rfl⟩ := List.mem_map.1 hm
+    exact msgOK_of_callRemote _ x.msg.raw x.body (info_of_sent _ hT na maxLen fuel x (hxs x hx))
+  obtain ⟨a1, a2, a3, a4⟩ := attribution A (infoOfParse Gen.Message.tables) _ evs s hok hc hs hbuf hnext
+  generalize hR : recvRun A (infoOfParse Gen.Message.tables) ⟨s, []⟩ evs = R at a1 a2 a3 a4 ⊢
+  have hpf := parsedFrom_of_goodFrom _ hT na maxLen fuel xs R.2 hxs a1
+  have hraws : ∀ n, bytesUpTo (xs.map SentFd.toMsg) n = ((xs.take n).map (·.msg.raw)).flatten := by
+    intro n
+    simp only [bytesUpTo, ← List.map_take, List.map_map]
+    rfl
+  have hfdss : ∀ n, fdsUpTo (xs.map SentFd.toMsg) n = ((xs.take n).map (·.ds)).flatten := by
+    intro n
+    simp only [fdsUpTo, ← List.map_take, List.map_map]
+    congr 1
+    apply List.map_congr_left
+    intro y hy
+    exact (toMsg_fds _ na maxLen fuel y (hxs y (List.mem_of_mem_take hy))).2.1
+  refine ⟨hpf, parsedFrom_args _ fuel xs R.2 hpf, by rw [← hraws]; exact a2, a3, by rw [← hfdss]; exact a4, ?_⟩
+  intro hall
+  have hlen : R.2.length ≤ (xs.map SentFd.toMsg).length := by
+    have := congrArg List.length (parsedFrom_args _ fuel xs R.2 hpf)
+    simp only [List.length_map, List.length_take] at this ⊢
+    omega
+  have hb : bytesUpTo (xs.map SentFd.toMsg) (xs.map SentFd.toMsg).length =
+      bytesUpTo (xs.map SentFd.toMsg) R.2.length ++ R.1.st.buffer := by
+    rw [← a2, hall, hraws, List.length_map, List.take_length]
+  obtain ⟨e1, e2⟩ := all_delivered (xs.map SentFd.toMsg) hwf R.2.length hlen R.1.st.buffer hb a3
+  refine ⟨by simpa using e1, e2, ?_⟩
+  have hp := hc.2.1
+  rw [a4, e1] at hp
+  have := hp.length_le
+  simp only [List.length_append] at this
+  exact List.eq_nil_of_length_eq_zero (by omega)
+
+
+/-- **The sender of the composition.**  `sendMessage` on a method call made by C03's constructor model
+(`oobFDs=[]`, body in C01's domain with descriptor arguments `ds`): `msg.oobFDs` afterwards (`oobAfter`: what
+`marshal.marshal` appended to the caller's list) is `ds`, and the transport calls (`sendConstructed`: one
+`sendFileDescriptor` per entry, then the `write`) are exactly those of the sender model of Proto/Fds.lean
+(`callRemote` on the body's `BV` abstraction; `sender_layout`). -/
+theorem sender_sends_constructed (a : Msg.CallArgs PyVal) (ts : List Ty) (pv : PyVal) (items : List PyVal)
+    (vs : List Val) (ds : List Nat) (bs : Bytes) (fuel : Nat)
+    (hsig : a.signature = some (renderAll ts)) (hne : renderAll ts ≠ []) (hbody : a.body = some pv)
+    (hoob : a.oobFDs = some []) (hitems : Code.topItems pv = .ok items)
+    (hrep : Code.RepFields (ds.map fdVal) vs true ts items 0 ds.length)
+    (henc : Spec.encodeAll Code.genAlign (Txdbus.endianOf true) ts vs 0 = some bs) (hfuel : depthAll vs ≤ fuel) :
+    oobAfter fuel a = some (ds.map fdVal) ∧
+    sendConstructed (oobAfter fuel a) = some (callRemote true (bvOfFields ds vs ts)).2 := by
+  have hm : Code.marshal fuel (renderAll ts) pv 0 true (some []) = .ok (bs.length, bs, some (ds.map fdVal)) := by
+    have h' := Code.marshal_eq_spec Code.genAlign Code.padOK_gen Code.genAlign_pos true ts pv items vs (ds.map fdVal)
+      ds.length 0 bs fuel hitems hrep henc hfuel
+    rw [h', List.take_of_length_le (by simp)]
+  have ho : oobAfter fuel a = some (ds.map fdVal) := by
+    unfold oobAfter
+    rw [hsig]
+    cases hr : renderAll ts with
+    | nil => exact absurd hr hne
+    | cons ch cs =>
+      simp only [wireCodec, hbody, hoob, Option.getD_some]
+      rw [← hr, hm]
+  have hl : fdLeavesL (bvOfFields ds vs ts) = ds := by
+    simpa using bvOfFields_of_rep ds vs true ts items 0 ds.length hrep
+  refine ⟨ho, ?_⟩
+  rw [ho]
+  simp only [sendConstructed, Option.getD_some, mapM_fdNat]
+  simp [callRemote, marshalMsg, sendMessage, marshalBVs_spec, hl]
+
+
+/-- The receive order induced by the sender's own transport calls for constructed messages (`senderEvs`: each
+message's `sendFileDescriptor` calls as descriptor arrivals, then its `write` as one read) is `Consistent`, and
+carries all the bytes. -/
+theorem senderEvs_consistent (na : Char → Bool) (maxLen : Nat) (hmax : maxLen ≤ Msg.Spec.maxMessage) (fuel : Nat)
+    (xs : List SentFd) (hxs : ∀ x ∈ xs, SentFdOK Gen.Message.tables na maxLen fuel x) :
+    Consistent (xs.map SentFd.toMsg) (senderEvs xs) ∧ bytesOf (senderEvs xs) = (xs.map (·.msg.raw)).flatten := by
+  have hlen : ∀ p ∈ xs.map (fun x => (x.msg.raw, x.body)), 16 ≤ p.1.length := by
+    intro p hp
+    obtain ⟨x, hx, rfl⟩ := List.mem_map.1 hp
+    exact (wellFormed_of_sentFd _ Msg.genTables_ok na maxLen fuel hmax x (hxs x hx)).1
+  have h := sender_calls_consistent (xs.map (fun x => (x.msg.raw, x.body))) hlen
+  have e1 : (xs.map (fun x => (x.msg.raw, x.body))).map (fun p => sentMsg p.1 p.2) = xs.map SentFd.toMsg := by
+    rw [List.map_map]; rfl
+  have e2 : ((xs.map (fun x => (x.msg.raw, x.body))).map (fun p => (callRemote true p.2).2.map (toEv p.1))).flatten
+      = senderEvs xs := by
+    rw [List.map_map]; rfl
+  rw [e1, e2] at h
+  refine ⟨h, ?_⟩
+  have hb := bytesOf_canonical (xs.map SentFd.toMsg)
+  rw [← e1, canonical_eq_transport, e2, e1] at hb
+  rw [hb]
+  simp only [bytesUpTo, List.take_length, List.map_map]
+  rfl
+
+/-- **Sender and receiver joined** (no hypothesis about the environment left): the sender performs `sendMessage`
+for the constructed messages `xs` one after the other, the receiver sees the transport calls in that order: every
+message is delivered with exactly its descriptors, C03's parse on the real queue returns the messages sent,
+nothing stays buffered, no descriptor stays queued. -/
+theorem descriptors_end_to_end_sender (na : Char → Bool) (maxLen : Nat) (hmax : maxLen ≤ Msg.Spec.maxMessage)
+    (fuel : Nat) (A : Auth α) (xs : List SentFd) (s : St α)
+    (hxs : ∀ x ∈ xs, SentFdOK Gen.Message.tables na maxLen fuel x)
+    (hs : s.authenticated = true) (hbuf : s.buffer = []) (hnext : s.nextMsgLen = 0) :
+    ParsedFrom Gen.Message.tables fuel xs (recvRun A (infoOfParse Gen.Message.tables) ⟨s, []⟩ (senderEvs xs)).2 ∧
+    (recvRun A (infoOfParse Gen.Message.tables) ⟨s, []⟩ (senderEvs xs)).2.map (fun d => (d.raw, d.args)) =
+      xs.map (fun x => (x.msg.raw, x.ds.map some)) ∧
+    (recvRun A (infoOfParse Gen.Message.tables) ⟨s, []⟩ (senderEvs xs)).1.st.buffer = [] ∧
+    (recvRun A (infoOfParse Gen.Message.tables) ⟨s, []⟩ (senderEvs xs)).1.queue = [] := by
+  obtain ⟨hc, hb⟩ := senderEvs_consistent na maxLen hmax fuel xs hxs
+  obtain ⟨h1, h2, _, _, _, h6⟩ := descriptors_end_to_end na maxLen hmax fuel A xs (senderEvs xs) s hxs hc hs hbuf hnext
+  obtain ⟨e1, e2, e3⟩ := h6 hb
+  refine ⟨h1, ?_, e2, e3⟩
+  rw [h2, e1, List.take_length]
+
+
+/-- **C20 end to end on a connection that starts in line mode.**  `descriptors_end_to_end` behind an authentication
+handshake (as in `attribution_after_handshake`: the descriptor queue exists from `connectionMade` on; descriptors may
+arrive before the first read, among the handshake reads, together with the final handshake line; `read (d1 ++ d2)`
+is the read that completes the handshake): the deliveries are the sent messages in order, each with exactly its
+descriptors, C03's parse on the real queue returns the messages sent, the queue holds the descriptors of undelivered
+messages, and when all bytes have arrived every message was delivered and no descriptor is left queued. -/
+theorem descriptors_end_to_end_after_handshake (na : Char → Bool) (maxLen : Nat)
+    (hmax : maxLen ≤ Msg.Spec.maxMessage) (fuel : Nat) (A : Auth α) (xs : List SentFd) (s : St α)
+    (hs : List Bytes) (last : Bytes) (a1 a' : α) (evsA evsB : List Ev) (d1 d2 : Bytes)
+    (hr : Ready s) (ha : s.authenticated = false) (hbuf : s.buffer = []) (hcl : s.closed = false)
+    (hnext : s.nextMsgLen = 0)
+    (hlines : ∀ l ∈ hs ++ [last], Spec.hasCRLF l = false ∧ l.length ≤ Txdbus.Gen.ProtoConst.maxAuthLength)
+    (hrun : authRun A s.auth hs = some a1) (hlast : A.handle a1 last = (a', .success))
+    (hH : bytesOf evsA ++ d1 = Spec.unlines (hs ++ [last]))
+    (hxs : ∀ x ∈ xs, SentFdOK Gen.Message.tables na maxLen fuel x)
+    (hc : ConsistentAfter (Spec.unlines (hs ++ [last])).length (xs.map SentFd.toMsg)
+      (evsA ++ .read (d1 ++ d2) :: evsB)) :
+    ParsedFrom Gen.Message.tables fuel xs
+      (recvRun A (infoOfParse Gen.Message.tables) ⟨s, []⟩ (evsA ++ .read (d1 ++ d2) :: evsB)).2 ∧
+    (recvRun A (infoOfParse Gen.Message.tables) ⟨s, []⟩ (evsA ++ .read (d1 ++ d2) :: evsB)).2.map
+        (fun d => (d.raw, d.args)) =
+      (xs.take (recvRun A (infoOfParse Gen.Message.tables) ⟨s, []⟩ (evsA ++ .read (d1 ++ d2) :: evsB)).2.length).map
+        (fun x => (x.msg.raw, x.ds.map some)) ∧
+    fdsOf (evsA ++ .read (d1 ++ d2) :: evsB) =
+      ((xs.take (recvRun A (infoOfParse Gen.Message.tables) ⟨s, []⟩ (evsA ++ .read (d1 ++ d2) :: evsB)).2.length).map
+        (·.ds)).flatten ++
+        (recvRun A (infoOfParse Gen.Message.tables) ⟨s, []⟩ (evsA ++ .read (d1 ++ d2) :: evsB)).1.queue ∧
+    (bytesOf (evsA ++ .read (d1 ++ d2) :: evsB) = Spec.unlines (hs ++ [last]) ++ (xs.map (·.msg.raw)).flatten →
+      (recvRun A (infoOfParse Gen.Message.tables) ⟨s, []⟩ (evsA ++ .read (d1 ++ d2) :: evsB)).2.length = xs.length ∧
+      (recvRun A (infoOfParse Gen.Message.tables) ⟨s, []⟩ (evsA ++ .read (d1 ++ d2) :: evsB)).1.st.buffer = [] ∧
+      (recvRun A (infoOfParse Gen.Message.tables) ⟨s, []⟩ (evsA ++ .read (d1 ++ d2) :: evsB)).1.queue = []) := by
+  have hT := Msg.genTables_ok
+  have hwf : ∀ m ∈ xs.map SentFd.toMsg, Spec.WellFormed m.raw := by
+    intro m hm
+    obtain ⟨x, hx, rfl⟩ := List.mem_map.1 hm
+    exact wellFormed_of_sentFd _ hT na maxLen fuel hmax x (hxs x hx)
+  have hok : ∀ m ∈ xs.map SentFd.toMsg, Spec.WellFormed m.raw ∧ MsgOK (infoOfParse Gen.Message.tables) m := by
+    intro m hm
+    refine ⟨hwf m hm, ?_⟩
+    obtain ⟨x, hx, rfl⟩ := List.mem_map.1 hm
+    exact msgOK_of_callRemote _ x.msg.raw x.body (info_of_sent _ hT na maxLen fuel x (hxs x hx))
+  obtain ⟨b1, b2, b3, b4⟩ := attribution_after_handshake A (infoOfParse Gen.Message.tables) _ s hs last a1 a' evsA evsB
+    d1 d2 hr ha hbuf hcl hnext hlines hrun hlast hH hok hc
+  generalize hR : recvRun A (infoOfParse Gen.Message.tables) ⟨s, []⟩ (evsA ++ .read (d1 ++ d2) :: evsB) = R
+    at b1 b2 b3 b4 ⊢
+  have hpf := parsedFrom_of_goodFrom _ hT na maxLen fuel xs R.2 hxs b1
+  have hraws : ∀ n, bytesUpTo (xs.map SentFd.toMsg) n = ((xs.take n).map (·.msg.raw)).flatten := by
+    intro n
+    simp only [bytesUpTo, ← List.map_take, List.map_map]
+    rfl
+  have hfdss : ∀ n, fdsUpTo (xs.map SentFd.toMsg) n = ((xs.take n).map (·.ds)).flatten := by
+    intro n
+    simp only [fdsUpTo, ← List.map_take, List.map_map]
+    congr 1
+    apply List.map_congr_left
+    intro y hy
+    exact (toMsg_fds _ na maxLen fuel y (hxs y (List.mem_of_mem_take hy))).2.1
+  refine ⟨hpf, parsedFrom_args _ fuel xs R.2 hpf, by rw [← hfdss]; exact b4, ?_⟩
+  intro hall
+  have hlen : R.2.length ≤ (xs.map SentFd.toMsg).length := by
+    have := congrArg List.length (parsedFrom_args _ fuel xs R.2 hpf)
+    simp only [List.length_map, List.length_take] at this ⊢
+    omega
+  have hb : bytesUpTo (xs.map SentFd.toMsg) (xs.map SentFd.toMsg).length =
+      bytesUpTo (xs.map SentFd.toMsg) R.2.length ++ R.1.st.buffer := by
+    rw [hall, List.append_assoc] at b2
+    have := List.append_cancel_left b2
+    rw [← this, hraws, List.length_map, List.take_length]
+  obtain ⟨e1, e2⟩ := all_delivered (xs.map SentFd.toMsg) hwf R.2.length hlen R.1.st.buffer hb b3
+  refine ⟨by simpa using e1, e2, ?_⟩
+  have hp := hc.2.1
+  rw [b4, e1] at hp
+  have := hp.length_le
+  simp only [List.length_append] at this
+  exact List.eq_nil_of_length_eq_zero (by omega)
+
+
+/-! ## The hypotheses are satisfiable -/
+
+/-- `MethodCallMessage('/a', 'm', signature='hh', body=[7, 7], oobFDs=[])`: two descriptor arguments, the same
+descriptor number twice. -/
+def exFdCall : Msg.Call PyVal :=
+  .methodCall { path := some "/a".toList, member := some "m".toList, signature := some "hh".toList,
+                body := some (.list [.int .plain 7, .int .plain 7]), oobFDs := some [] }
+
+/-- `SignalMessage('/a', 'm', 'a.b')`: no signature, no descriptors. -/
+def exPlainSignal : Msg.Call PyVal :=
+  .signal { path := some "/a".toList, member := some "m".toList, interface := some "a.b".toList }
+
+/-- `SentFdOK` for the two concrete calls made one after the other in a fresh process (serials 1 and 2), and
+what the theorems say about them: the parser finds `unix_fds = 2`, indices `[0, 1]` in the first and nothing in
+the second; the sender's own transport calls `f7 f7 W W`, replayed into a receiver, give two deliveries, the
+first with the arguments `[7, 7]`, the queue empty at the end. -/
+example :
+    ∃ (st1 st2 : Msg.St) (m1 m2 : Msg.Msg PyVal),
+      construct Gen.Message.tables (wireCodec 2) (fun _ => false) Gen.Message.maxMsgLen
+        (Msg.St.init Gen.Message.tables) exFdCall = (st1, .ok m1) ∧
+      construct Gen.Message.tables (wireCodec 2) (fun _ => false) Gen.Message.maxMsgLen st1 exPlainSignal
+        = (st2, .ok m2) ∧
+      SentFdOK Gen.Message.tables (fun _ => false) Gen.Message.maxMsgLen 2
+        ⟨m1, [7, 7], [.basic .h, .basic .h], [.int 0, .int 1], [.int .plain 7, .int .plain 7]⟩ ∧
+      SentFdOK Gen.Message.tables (fun _ => false) Gen.Message.maxMsgLen 2 ⟨m2, [], [], [], []⟩ ∧
+      infoOfParse Gen.Message.tables m1.raw = ⟨some 2, [0, 1]⟩ ∧
+      infoOfParse Gen.Message.tables m2.raw = ⟨none, []⟩ ∧
+      senderEvs [⟨m1, [7, 7], [.basic .h, .basic .h], [.int 0, .int 1], [.int .plain 7, .int .plain 7]⟩,
+                 ⟨m2, [], [], [], []⟩] = [.fd 7, .fd 7, .read m1.raw, .read m2.raw] ∧
+      (recvRun idleAuth (infoOfParse Gen.Message.tables) ⟨{ St.init true () with authenticated := true }, []⟩
+        [.fd 7, .fd 7, .read m1.raw, .read m2.raw]).2.map (fun d => (d.raw, d.args)) =
+        [(m1.raw, [some 7, some 7]), (m2.raw, [])] ∧
+      (recvRun idleAuth (infoOfParse Gen.Message.tables) ⟨{ St.init true () with authenticated := true }, []⟩
+        [.fd 7, .fd 7, .read m1.raw, .read m2.raw]).1.queue = [] := by
+  obtain ⟨st1, m1, h1⟩ := construct_shape20 (T := Gen.Message.tables) (C := wireCodec 2)
+    (na := fun _ => false) (maxLen := Gen.Message.maxMsgLen) (st := Msg.St.init Gen.Message.tables) (c := exFdCall)
+    (by decide +kernel)
+  have e1 : (construct Gen.Message.tables (wireCodec 2) (fun _ => false) Gen.Message.maxMsgLen
+      (Msg.St.init Gen.Message.tables) exFdCall).1 = ⟨2⟩ := by decide +kernel
+  rw [h1] at e1
+  simp only at e1
+  subst e1
+  obtain ⟨st2, m2, h2⟩ := construct_shape20 (T := Gen.Message.tables) (C := wireCodec 2)
+    (na := fun _ => false) (maxLen := Gen.Message.maxMsgLen) (st := ⟨2⟩) (c := exPlainSignal) (by decide +kernel)
+  have hx1 : SentFdOK Gen.Message.tables (fun _ => false) Gen.Message.maxMsgLen 2
+      ⟨m1, [7, 7], [.basic .h, .basic .h], [.int 0, .int 1], [.int .plain 7, .int .plain 7]⟩ :=
+    ⟨Msg.St.init Gen.Message.tables, ⟨2⟩, exFdCall, by decide, h1,
+      Or.inr ⟨.list [.int .plain 7, .int .plain 7], [0, 0, 0, 0, 1, 0, 0, 0], rfl,
+        (by decide : renderAll [Ty.basic .h, Ty.basic .h] ≠ []), rfl,
+        (by decide : allWF [Ty.basic .h, Ty.basic .h] = true), rfl,
+        by simp [Code.KeysOKList, Code.KeysOK],
+        (by decide +kernel : Spec.encodeAll Code.genAlign (Txdbus.endianOf true) [Ty.basic .h, Ty.basic .h]
+          [Val.int 0, Val.int 1] 0 = some [0, 0, 0, 0, 1, 0, 0, 0]),
+        (by decide : depthAll [Val.int 0, Val.int 1] ≤ 2), Or.inl ⟨rfl, exFd_rep⟩⟩⟩
+  have hx2 : SentFdOK Gen.Message.tables (fun _ => false) Gen.Message.maxMsgLen 2 ⟨m2, [], [], [], []⟩ :=
+    ⟨⟨2⟩, st2, exPlainSignal, by decide, h2, Or.inl ⟨Or.inl rfl, Or.inl rfl, rfl, rfl, rfl, rfl⟩⟩
+  have hall : ∀ x ∈ [(⟨m1, [7, 7], [.basic .h, .basic .h], [.int 0, .int 1], [.int .plain 7, .int .plain 7]⟩ : SentFd),
+      ⟨m2, [], [], [], []⟩], SentFdOK Gen.Message.tables (fun _ => false) Gen.Message.maxMsgLen 2 x := by
+    intro x hx
+    simp only [List.mem_cons, List.not_mem_nil, or_false] at hx
+    rcases hx with rfl | rfl <;> assumption
+  have i1 := info_of_sent _ Msg.genTables_ok _ _ _ _ hx1
+  have i2 := info_of_sent _ Msg.genTables_ok _ _ _ _ hx2
+  have hev : senderEvs [(⟨m1, [7, 7], [.basic .h, .basic .h], [.int 0, .int 1], [.int .plain 7, .int .plain 7]⟩ : SentFd),
+      ⟨m2, [], [], [], []⟩] = [.fd 7, .fd 7, .read m1.raw, .read m2.raw] := by
+    simp [senderEvs, SentFd.body, bvOfFields, bvOf, callRemote, marshalMsg, marshalBVs, marshalBV, sendMessage, toEv]
+  obtain ⟨_, d2, _, d4⟩ := descriptors_end_to_end_sender (fun _ => false) Gen.Message.maxMsgLen (by decide) 2 idleAuth _
+    { St.init true () with authenticated := true } hall rfl rfl rfl
+  rw [hev] at d2 d4
+  refine ⟨⟨2⟩, st2, m1, m2, h1, h2, hx1, hx2, ?_, ?_, hev, d2, d4⟩
+  · rw [i1]; simp [SentFd.body, bvOfFields, bvOf, callRemote, marshalMsg, marshalBVs, marshalBV]
+  · rw [i2]; simp [SentFd.body, bvOfFields, callRemote, marshalMsg, marshalBVs]
+
+
+end Composed
 
 end Txdbus.Proto
 
@@ -323,3 +689,15 @@ open Txdbus.Proto in
 #print axioms model_rules_match_source
 open Txdbus.Proto in
 #print axioms index_beyond_declared_reaches_later_message
+open Txdbus.Proto in
+#print axioms info_of_constructed
+open Txdbus.Proto in
+#print axioms descriptors_end_to_end
+open Txdbus.Proto in
+#print axioms sender_sends_constructed
+open Txdbus.Proto in
+#print axioms senderEvs_consistent
+open Txdbus.Proto in
+#print axioms descriptors_end_to_end_sender
+open Txdbus.Proto in
+#print axioms descriptors_end_to_end_after_handshake
